@@ -293,3 +293,24 @@ fn restart_while_library_with_breakpoint_is_unloaded() {
     assert_eq!(second.iter().filter(|h| h.as_str() == "lib_a.rs:4").count(), 2);
     assert_eq!(second.iter().filter(|h| h.starts_with("dl_app.rs")).count(), 6);
 }
+
+/// a breakpoint parked for an unloaded library can be removed by the address it had
+#[test]
+fn parked_breakpoint_is_removable_by_its_old_address() {
+    let hits = Hits::default();
+    let mut debugger = new_debugger(hits.clone());
+    debugger.add_deferred_at_function("a_sum");
+    debugger.set_breakpoint_at_fn("checkpoint").unwrap();
+    debugger.start_debugee().unwrap();
+    let mut first = hits.take();
+    debugger.continue_debugee().unwrap(); first.extend(hits.take());
+    assert_eq!(first.last().map(|s| s.as_str()), Some("lib_a.rs:4"));
+    let old = debugger.breakpoints_snapshot().into_iter().find(|b| b.place.as_ref().is_some_and(|p| p.file.ends_with("lib_a.rs"))).map(|b| b.addr).unwrap();
+    for _ in 0..2 { debugger.continue_debugee().unwrap(); first.extend(hits.take()); }
+    assert!(!debugger.shared_libs().iter().any(|r| r.path.ends_with("liblib_a.so") && r.range.is_some()));
+    let removed = debugger.remove_breakpoint(old).unwrap();
+    assert!(removed.is_some(), "the breakpoint of the unloaded library must be removable by the address the user knows");
+    let rest = run_to_exit(&mut debugger, &hits);
+    println!("rest: {rest:?}");
+    assert!(!rest.iter().any(|h| h == "lib_a.rs:4"), "a removed breakpoint must not stop the program again");
+}
